@@ -15,11 +15,17 @@ embedding `some` (`someHom`), with which every model function commutes (`Lemmas/
 * `C08_spline_coeffs`, `C08_spline_eval` : the same for coefficient extraction and evaluation.
 * `C08_other_lanes`            : consequently two data sets that agree on lane `j` (whatever the
                                  other lanes hold) give identical lane-`j` results.
-Individual boundary arrays: `solveIndividual` *is* one single-lane `solve_for_k` call per lane
-with that lane's boundary (model of `solve_for_k_individual`), so lane independence is by
-construction there; the flattening multi-index ↔ lane is exercised by the check.
+* `C08_spline_build_lanes`     : over an ordered field the n-d build of validated data succeeds (no
+                                 error, no panic) and each lane of its slopes is the unique solution
+                                 of that lane's own system.
+* `C08_individual`             : Individual boundary arrays — lane `j` of the slopes is `solve_for_k`
+                                 of lane `j` with boundary `bounds[j]` (the transposition back
+                                 into rows included); the flattening multi-index ↔ lane of the
+                                 real arrays is exercised by the check.
 -/
 import NdInterp.Lemmas.LanesHom
+import NdInterp.Lemmas.SplineSys
+import NdInterp.Model.Interp
 
 namespace NdInterp
 
@@ -87,5 +93,116 @@ theorem C08_other_lanes_spline (xs : List α) (ys ys' : List (List α)) (left ri
     ← solveForK_nat _ (projHom j) xs ys' _ (by intro hc; simp [InternalBoundary.specialize] at hc), h]
 
 end
+
+section individual
+variable {α : Type} [Cmp α] [Add α] [Sub α] [Mul α] [Div α] [Neg α] [NatCast α]
+
+theorem mapM_ok {β γ : Type} (f : β → Except Fault γ) (l : List β) (r : List γ)
+    (h : l.mapM f = .ok r) :
+    r.length = l.length ∧ ∀ i (hi : i < l.length) (hr : i < r.length), f l[i] = .ok r[i] := by
+  induction l generalizing r with
+  | nil =>
+    simp only [List.mapM_nil, pure, Except.pure, Except.ok.injEq] at h
+    subst h
+    exact ⟨rfl, fun i hi => absurd hi (by simp)⟩
+  | cons a as ih =>
+    rw [List.mapM_cons] at h
+    cases hfa : f a with
+    | error e => rw [hfa] at h; simp [bind, Except.bind] at h
+    | ok y =>
+      cases hm : as.mapM f with
+      | error e => rw [hfa, hm] at h; simp [bind, Except.bind] at h
+      | ok ys =>
+        rw [hfa, hm] at h
+        simp only [bind, Except.bind, pure, Except.pure, Except.ok.injEq] at h
+        subst h
+        obtain ⟨hl, hi⟩ := ih ys hm
+        refine ⟨by simp [hl], ?_⟩
+        intro i h1 h2
+        cases i with
+        | zero => simpa using hfa
+        | succ i => simpa using hi i (by simpa using h1) (by simpa using h2)
+
+/-- **C08_individual**: with per-lane boundary conditions (`BoundaryCondition::Individual`) lane `j`
+    of the slopes is `solve_for_k` of lane `j` of the data with lane `j`'s own boundary — nothing
+    else enters: an answered n-d solve means every lane's own solve was answered, and entry `[i][j]`
+    of the result is entry `i` of lane `j`'s slopes. -/
+theorem C08_individual (xs : List α) (rows : List (List α)) (L : Nat) (bounds : List (RowBoundary α))
+    (ks : List (List α)) (h : solveIndividual xs rows L bounds = .ok ks) (j : Nat) (hj : j < L) :
+    ∃ col b kcol, rows.mapM (fun r => rd r j) = .ok col ∧ rd bounds j = .ok b ∧
+      solveForK (V := α) xs col b.toInternal = .ok kcol ∧ ks.length = rows.length ∧
+      ∀ i (hi : i < ks.length), ∃ v, (ks[i])[j]? = some v ∧ rd kcol i = .ok v := by
+  unfold solveIndividual at h
+  simp only [bind, Except.bind] at h
+  cases hc : (List.range L).mapM (fun j => (rows.mapM (fun r => rd r j)).bind fun col =>
+      (rd bounds j).bind fun b => solveForK (V := α) xs col b.toInternal) with
+  | error e =>
+    simp only [Except.bind] at hc
+    rw [hc] at h; simp at h
+  | ok cols =>
+    simp only [Except.bind] at hc
+    rw [hc] at h
+    simp only [transposeLanes] at h
+    obtain ⟨hcl, hci⟩ := mapM_ok _ _ _ hc
+    have hjc : j < cols.length := by rw [hcl]; simpa using hj
+    have hcj := hci j (by simpa using hj) hjc
+    simp only [List.getElem_range] at hcj
+    cases hcol : rows.mapM (fun r => rd r j) with
+    | error e => rw [hcol] at hcj; simp at hcj
+    | ok col =>
+      rw [hcol] at hcj
+      cases hb : rd bounds j with
+      | error e => rw [hb] at hcj; simp at hcj
+      | ok b =>
+        rw [hb] at hcj
+        simp only at hcj
+        obtain ⟨hkl, hki⟩ := mapM_ok _ _ _ h
+        refine ⟨col, b, cols[j], rfl, rfl, hcj, by simpa using hkl, ?_⟩
+        intro i hi
+        have hi' : i < (List.range rows.length).length := by rw [← hkl]; exact hi
+        have hrow := hki i hi' hi
+        simp only [List.getElem_range] at hrow
+        obtain ⟨hrl, hri⟩ := mapM_ok _ _ _ hrow
+        have hjr : j < (ks[i]).length := by rw [hrl]; exact hjc
+        have := hri j hjc hjr
+        exact ⟨_, List.getElem?_eq_getElem hjr, this⟩
+
+end individual
+
+section field
+variable {F : Type} [Field F] [LinearOrder F] [IsStrictOrderedRing F] [Cmp F] [LawfulCmp F]
+  [ToUsize F] [RemEuclid F]
+
+/-- **C08_spline_build_lanes**: over an ordered field the n-d build of a validated data set
+    (strictly increasing axis, one data row per knot, every row containing lane `j`) succeeds —
+    it neither fails nor panics — and lane `j` of its slopes is *the* solution of lane `j`'s own
+    system (`solveForK_spec`: the unique slopes satisfying the rows).  Every single-lane theorem
+    of C02/C03/C16 therefore holds for every lane of n-d data. -/
+theorem C08_spline_build_lanes (xs : List F) (ys : List (List F)) (y1 : List F) (j : Nat)
+    (h : IsLane j ys y1) (hs : StrictInc xs) (hy : ys.length = xs.length) (hn : 3 ≤ xs.length)
+    (left right : SingleBoundary F) :
+    ∃ ks k1, solveForK (V := List F) xs ys (.mixed left right) = .ok ks ∧
+      solveForK (V := F) xs y1 (.mixed left right) = .ok k1 ∧ IsLane j ks k1 ∧
+      ks.length = xs.length := by
+  have hy1 : y1.length = xs.length := by
+    have := congrArg List.length h
+    simp only [List.length_map] at this
+    omega
+  obtain ⟨k1, hk1, hlen, _, _⟩ := solveForK_spec xs y1 hy1 hn hs left right
+  have hnat := C08_spline_solve xs ys y1 (.mixed left right) j h
+    (by intro hc; simp [InternalBoundary.specialize] at hc)
+    (by intro hc; simp [InternalBoundary.specialize] at hc)
+  rw [hk1] at hnat
+  cases hsol : solveForK (V := List F) xs ys (.mixed left right) with
+  | error e => rw [hsol] at hnat; simp [Except.map] at hnat
+  | ok ks =>
+    rw [hsol] at hnat
+    simp only [Except.map, Except.ok.injEq] at hnat
+    refine ⟨ks, k1, rfl, hk1, hnat, ?_⟩
+    have := congrArg List.length hnat
+    simp only [List.length_map] at this
+    omega
+
+end field
 
 end NdInterp
